@@ -175,6 +175,8 @@ func runC03(c *fw.Case) (o fw.Outcome) {
 		ms := ngapMessages()
 		m := ms[((c.Idx/10)*6+k)%len(ms)]
 		return c03Message(c, m)
+	case k == 6 && (c.Idx/10)%2 == 1:
+		return c03LongList(c)
 	case k == 6:
 		return c03Transfer(c)
 	case k <= 8:
@@ -382,6 +384,29 @@ func c03Transfer(c *fw.Case) (o fw.Outcome) {
 	o.Nontrivial = len(ref) > 4
 	o.Count("transfers_compared", 1)
 	o.Input = fmt.Sprintf("%s ref=%x", tt.Name(), clip(ref, 200))
+	return
+}
+
+// c03LongList: a SEQUENCE OF type with many, mostly minimal elements (see longList in c04.go) - counts around 127/128,
+// 255/256 and, for the lists whose SIZE allows it, around the 16K fragmentation steps.
+func c03LongList(c *fw.Case) (o fw.Outcome) {
+	lts := listTypes()
+	j := c.Idx / 20
+	lt := lts[j%len(lts)]
+	want := longListSizes[(j/len(lts)+j)%len(longListSizes)]
+	if lp, _ := per.ParseTag(lt.Tag); lp.SizeUB != nil && *lp.SizeUB >= 16384 && (j/len(lts))%3 == 2 && (c.Thorough() && (j/len(lts))%12 == 2 || *lp.SizeUB >= 65536) {
+		// quick: only the list whose SIZE reaches 64K (its length is the general determinant, fragmented from 16K on);
+		// thorough: also the lists bounded by 65535 (a 16-bit count), which take seconds per case
+		want = []int{16383, 16384, 16385, 20000, 32768, 49152, 49153, 65535, 65536}[(j/len(lts)/3)%9]
+		o.Tag("long-list:fragmented-length")
+	}
+	v, n := longList(c.R, lt, want)
+	ref := compareEncodings(&o, v.Interface(), "", fmt.Sprintf("%s x%d", lt.Typ.Elem().Name(), n), false)
+	o.Tag("long-list:" + lt.Typ.Elem().Name())
+	o.Digest, o.Nontrivial = fw.Hash(ref), n >= 2
+	o.Count("long_lists_compared", 1)
+	o.Max("longest_list_elements", int64(n))
+	o.Input = fmt.Sprintf("SEQUENCE (SIZE %s) OF %s with %d elements, ref=%x", lt.Tag, lt.Typ.Elem().Name(), n, clip(ref, 120))
 	return
 }
 
